@@ -3,6 +3,7 @@ import Noodles.Cram.Features
 import Noodles.Cram.Mates
 import Noodles.Cram.Container
 import Noodles.Cram.DriverC07Enc
+import Noodles.Cram.DriverC07Sam
 /-! Line-protocol handler for the CRAM record / mate / container models (`c07 …`). -/
 namespace Noodles.Cram.Drv
 open Noodles.Wire
@@ -123,6 +124,7 @@ def handleC07 : List String → String
     | some n => toString (Container.itf8SizeOf n)
     | none => "bad-op"
   | ["eof"] => hexN Container.eof
+  | "sam" :: ws => (DrvSam.handle ("sam" :: ws)).getD "bad-op"
   | ws => (DrvEnc.handle ws).getD "bad-op"
 
 end Noodles.Cram.Drv
